@@ -131,7 +131,9 @@ def apply_real(ctx, op, cur, env, readers=None):
                     readers[(x, lim)] = PlotfileCooker(x) if lim is None else PlotfileCooker(x, limit_level=lim)
             cb(readers[(a, lim)], readers[(b, lim)], pltout=out, vars1=op.get("v1"), vars2=op.get("v2"))
     elif k == "chef":
-        rp = os.path.join(ctx.scratch, f"rec_{op['name']}.py")
+        ctx._n += 1
+        rd = os.path.join(ctx.scratch, f"c14rec{ctx._n}"); os.makedirs(rd)
+        rp = os.path.join(rd, "recipe.py")          # every cooking step of a process uses a file of this name
         with open(rp, "w") as f:
             f.write(RECIPE % op["name"])
         tools.chef(cur, rp, out, kept=" ".join(op["kept"]) if op["kept"] else None, serial=op.get("serial", False))
@@ -266,9 +268,11 @@ def gen_ops(rng, spec, sib, kinds, trunc=False):
                 choice = "ancestor" if any(x not in fields for x in names) else "sibling"
             if choice == "sibling":
                 v2 = rng.choice([None, [x for x in snames if x not in fields][:1]])
-                ops.append({"op": "combine", "with": "sibling", "first": True, "v1": None, "v2": v2, "limit": cur_levels - 1 if cur_levels < nlev else None,
+                # every field of the current plotfile, named in another order than its header
+                v1 = fields[::-1] if (len(fields) >= 2 and rng.random() < 0.4) else None
+                ops.append({"op": "combine", "with": "sibling", "first": True, "v1": v1, "v2": v2, "limit": cur_levels - 1 if cur_levels < nlev else None,
                             "cli": v2 is not None or rng.random() < 0.3})
-                fields = fields + [x for x in (snames if v2 is None else v2) if x not in fields]
+                fields = (fields if v1 is None else list(v1)) + [x for x in (snames if v2 is None else v2) if x not in fields]
             elif choice == "ancestor":
                 ops.append({"op": "combine", "with": "orig", "first": True, "v1": None, "v2": None, "limit": cur_levels - 1 if cur_levels < nlev else None})
                 fields = fields + [x for x in names if x not in fields]
